@@ -30,8 +30,11 @@ class World:
         self.term = data.Term(name="t:x", label="x", definition="d")
         self.tag = data.Tag(term=self.term, value="v")
         self.ses = [data.SoundEvent(uuid=U(100 + i), recording=self.rec, geometry=data.TimeInterval(coordinates=[i, i + 1])) for i in range(6)]
-        self.anns = [data.SoundEventAnnotation(uuid=U(200 + i), sound_event=self.ses[i], created_on=T0) for i in range(6)]
-        self.preds = [data.SoundEventPrediction(uuid=U(300 + i), sound_event=self.ses[i], score=0.5) for i in range(6)]
+        # objects 4 and 5 are distinct annotations / predictions of the SAME sound events as 0 and 1 (two annotators,
+        # two model runs): identity is the annotation / prediction, not the sound event it wraps
+        se_of = [0, 1, 2, 3, 0, 1]
+        self.anns = [data.SoundEventAnnotation(uuid=U(200 + i), sound_event=self.ses[se_of[i]], created_on=T0) for i in range(6)]
+        self.preds = [data.SoundEventPrediction(uuid=U(300 + i), sound_event=self.ses[se_of[i]], score=0.5) for i in range(6)]
 
     def clip_ann(self, ac, anns):
         return self.data.ClipAnnotation(uuid=U(400 + ac), clip=self.clips[ac], sound_events=[self.anns[i] for i in anns], created_on=T0)
@@ -68,8 +71,9 @@ class C04(Prop):
     # ------------------------------------------------------------------ generation
     def _arr_case(self, rng):
         na, npred = rng.randint(0, 4), rng.randint(0, 4)
-        anns = rng.sample(range(4), na)
-        preds = rng.sample(range(4), npred)
+        pool = range(4) if rng.random() < 0.5 else range(6)
+        anns = rng.sample(pool, na)
+        preds = rng.sample(pool, npred)
         mode = rng.choice(["valid", "valid", "valid", "mutated", "mutated", "random"])
         ms = []
         if mode in ("valid", "mutated"):
@@ -81,23 +85,30 @@ class C04(Prop):
             ms += [[None, x] for x in a] + [[x, None] for x in p]
             rng.shuffle(ms)
             if mode == "mutated":
-                k = rng.choice(["drop", "dup", "foreign-t", "foreign-s", "both-none", "dup-one-side", "swap-clip"])
+                k = rng.choice(["drop", "dup", "foreign-t", "foreign-s", "both-none", "dup-one-side", "swap-clip", "twin", "twin"])
                 if k == "drop" and ms:
                     ms.pop(rng.randrange(len(ms)))
                 elif k == "dup" and ms:
                     ms.append(list(rng.choice(ms)))
                 elif k == "foreign-t":
-                    ms.append([None, rng.choice([4, 5])])
+                    ms.append([None, rng.choice([x for x in range(6) if x not in anns] or [5])])
                 elif k == "foreign-s":
-                    ms.append([rng.choice([4, 5]), None])
+                    ms.append([rng.choice([x for x in range(6) if x not in preds] or [5]), None])
                 elif k == "both-none":
                     ms.append([None, None])
+                elif k == "twin" and ms:
+                    # a match is retargeted to the other annotation / prediction of the same sound event
+                    twin = {0: 4, 1: 5, 4: 0, 5: 1}
+                    m = rng.choice(ms)
+                    side = rng.choice([0, 1])
+                    if m[side] in twin:
+                        m[side] = twin[m[side]]
                 elif k == "dup-one-side" and ms:
                     m = rng.choice(ms)
                     ms.append([m[0], None] if m[0] is not None else [None, m[1]])
         else:
             for _ in range(rng.randint(0, 6)):
-                ms.append([rng.choice([None, 0, 1, 2, 3, 4]), rng.choice([None, 0, 1, 2, 3, 4])])
+                ms.append([rng.choice([None, 0, 1, 2, 3, 4, 5]), rng.choice([None, 0, 1, 2, 3, 4, 5])])
         ac = 1
         pc = 1 if rng.random() < 0.85 else 2
         affs = [Fraction(1, 2) for _ in ms]
@@ -148,7 +159,7 @@ class C04(Prop):
             w = self.w
             ces = []
             for k in (1, 2):
-                idx = [0, 1, 2, 3] if k == 1 else [4, 5]
+                idx = [0, 1, 2, 3] if k == 1 else [4, 5]  # base document only: registers every object
                 ca, cp = w.clip_ann(k, idx), w.clip_pred(k, idx)
                 ms = [data.Match(uuid=U(600 + i), source=None, target=w.anns[i], affinity=0) for i in idx]
                 ms += [data.Match(uuid=U(700 + i), source=w.preds[i], target=None, affinity=0) for i in idx]
